@@ -33,7 +33,7 @@ V_v2 == {"PASS", "FAIL", "TIMEOUT", "SILENCE", "BYPASS", "RAISE"}
 V_v2two == {"PASS", "FAIL"}
 V_legacy == {"T", "F", "RAISE"}
 Rep_one == {"uri"}
-Rep_all == {"uri", "strlist", "byteslist", "bytearraylist", "memviewlist", "wire", "wirebuf", "mutbuf"}
+Rep_all == {"uri", "strlist", "byteslist", "bytearraylist", "memviewlist", "wire", "wirebuf", "mutbuf", "tuple", "iter"}
 E_all == {"bare", "lp", "lph", "lpo"}
 E_two == {"bare", "lp"}
 J_one == {"junk"}
